@@ -124,6 +124,14 @@ func c19BaseScenarios() []C19Scenario {
 		{Name: "concatenation-on-kept-slices", Stores: [][]store.Pair{d()}, KeptSlices: true, Threads: []C19Thread{
 			{[]string{"select key, value + '-A', key + value where key ^= 'a' | value + 'x' = '3x'"}, 0, drv.Batch},
 			{[]string{"select key, value + '-BB' as x where x != '9-BB'"}, 0, drv.Batch}}},
+		// JSON documents written in unusual ways (leading blanks, a line feed) next
+		// to values that are no documents at all: what json() makes of one value
+		// must not reach another statement's values
+		{"json-over-odd-values", [][]store.Pair{
+			{{K: "a1", V: ` {"tag":"A","n":"7"}`}, {K: "a2", V: "\n{\"tag\":\"A2\"}"}, {K: "a3", V: `{"tag":"x","n":"1"}`}},
+			{{K: "p1", V: "plain"}, {K: "p2", V: ""}, {K: "p3", V: "[1,2]"}, {K: "p4", V: "12"}, {K: "p5", V: `{"tag":"own"}`}, {K: "p6", V: "{broken"}}}, []C19Thread{
+			{[]string{"select key, json(value)['tag'], json(value)['n'] where true"}, 0, drv.Batch},
+			{[]string{"select key, json(value)['tag'], json(value)['n'] where json(value)['tag'] != 'zz'"}, 1, drv.Row}}, false, false},
 		{"three-access-paths", [][]store.Pair{d()}, []C19Thread{
 			{[]string{"select * where key in ('a1', 'y1', 'zz')"}, 0, drv.Row},
 			{[]string{"select * where key ^= 'a'"}, 0, drv.Batch},
